@@ -36,3 +36,7 @@ def run(ctx):
                        "clock tick, a clock step backwards, or another process produce an identity that already exists and the CREATE fails "
                        "(or collides)" % [x.split("::")[-1] for x in clocks], c.loc(), sample={"fn": i, "site": c.loc(), "clock": clocks})
     ctx.floor("C32.1", "create_node call sites in the executor", n, 2)
+    # internal (dense) node ids are handed out from the id map's high-water mark: that read must happen under the writer mutex,
+    # otherwise a writer queued behind another one allocates from a stale base and two nodes get the same identity
+    from .c09 import writer_rmw_rule
+    writer_rmw_rule(ctx, "C32.2")
